@@ -175,10 +175,16 @@ namespace c01
   /// BCSR<BH,BW> from a *scalar* dense reference of size (mb*BH) x (nb*BW) and a block pattern (bit I*nb+J);
   /// every entry of a stored block is taken from d (d must be zero outside of the stored blocks).
   template<typename DT, typename IT, int BH, int BW>
-  SparseMatrixBCSR<DT, IT, BH, BW> build_bcsr(const DenseRef& d, int mb, int nb, uint64_t bbits)
+  SparseMatrixBCSR<DT, IT, BH, BW> build_bcsr(const DenseRef& d, int mb, int nb, uint64_t bbits, int empty_rep = 0)
   {
     Index nblk = 0; for(int q = 0; q < mb * nb; ++q) nblk += Index((bbits >> q) & 1u);
-    if(nblk == 0) return SparseMatrixBCSR<DT, IT, BH, BW>(Index(mb), Index(nb));
+    if(nblk == 0)
+    {
+      if(empty_rep == 0 || mb == 0 || nb == 0) return SparseMatrixBCSR<DT, IT, BH, BW>(Index(mb), Index(nb));
+      SparseMatrixBCSR<DT, IT, BH, BW> a(Index(mb), Index(nb), Index(0));
+      for(int i = 0; i <= mb; ++i) a.row_ptr()[i] = IT(0);
+      return a;
+    }
     DenseVector<DT, IT> val(nblk * Index(BH * BW)); DenseVector<IT, IT> ci(nblk); DenseVector<IT, IT> rp(Index(mb + 1));
     Index k = 0; rp.elements()[0] = IT(0);
     for(int I = 0; I < mb; ++I)
